@@ -4,7 +4,7 @@ import random
 
 from . import spec as S
 
-CLASSES = ["K1", "K2", "K3", "K4", "K5", "K6", "K7", "K8", "K9", "K10", "K11"]
+CLASSES = ["K1", "K2", "K3", "K4", "K5", "K6", "K7", "K8", "K9", "K10", "K11", "K12"]
 RUN_TYPES = ["AtMostKInARow", "AtLeastKInARow", "ExactlyKInARow", "ExactlyK"]
 
 
@@ -136,7 +136,10 @@ def gen_flat(rng, cls, max_size=8):
                   and all(w == 1 for _, w in spec["factors"][n]["levels"])]
         if basics:
             cons.append({"type": "Sequential", "factor": rng.choice(basics)})
-    spec["block"] = {"op": "cross", "design": names, "crossings": [crossing], "cons": cons, "rcc": rcc,
+    design = list(names)
+    if rng.random() < 0.3:
+        rng.shuffle(design)   # the order of the design list is independent of the order of definition
+    spec["block"] = {"op": "cross", "design": design, "crossings": [crossing], "cons": cons, "rcc": rcc,
                      "mode": "weight", "align": "equal", "ctor": "CrossBlock"}
     return spec
 
@@ -291,7 +294,83 @@ def gen_nest(rng, deep=None):
     return spec
 
 
+def gen_combo(rng):
+    """K12: deliberate feature combinations that independent random choices rarely produce together — a crossed
+    within-trial derived factor whose sources are (partly) outside the crossing, optionally together with a crossed
+    transition factor (preamble), a weighted crossed level, a MinimumTrials that is not a multiple of the crossing
+    size, an Exclude on a derived or basic level, a derived factor over a derived factor, and a design list whose
+    order is not the definition order."""
+    spec = {"factors": {}, "order": [], "block": None}
+    F = spec["factors"]
+    F["A"] = _basic(rng, 0, False, nl=rng.choice([2, 2, 3]))
+    if rng.random() < 0.35:
+        rng.choice(F["A"]["levels"])[1] = 2
+    F["B"] = _basic(rng, 1, False, nl=rng.choice([2, 2, 3]))
+    spec["order"] = ["A", "B"]
+    if rng.random() < 0.3:
+        F["C"] = _basic(rng, 2, False, nl=2)
+        spec["order"].append("C")
+    basics = list(spec["order"])
+    add_derived(rng, spec, "W", "within", deps=rng.choice([["A", "B"], ["B"], ["B", "A"]] + ([["B", "C"]] if "C" in F else [])),
+                else_level=None)
+    if rng.random() < 0.3:
+        add_derived(rng, spec, "V", "within", deps=rng.choice([["W", "A"], ["W"], ["B", "W"]]), else_level=None)
+    has_tr = rng.random() < 0.45
+    if has_tr:
+        add_derived(rng, spec, "Tr", "transition", deps=[rng.choice(["A", "B", "W"])], else_level=None)
+        F["Tr"]["levels"] = F["Tr"]["levels"][:2]
+        for k in F["Tr"]["table"]:
+            F["Tr"]["table"][k] %= 2
+        if F["Tr"].get("else") is not None:
+            F["Tr"]["else"] = 1
+    names = list(spec["order"])
+    options = [["A", "W"], ["W"], ["A"], ["A", "B"], ["B", "W"]]
+    if has_tr:
+        options += [["W", "Tr"], ["A", "Tr"], ["W", "Tr"], ["B", "Tr"]]
+    if "V" in F:
+        options += [["V"], ["A", "V"]]
+    crossing = rng.choice(options)
+    size = 1
+    for n in crossing:
+        size *= sum(w for _, w in F[n]["levels"])
+    if size > 8:
+        crossing = crossing[:1]
+        size = sum(w for _, w in F[crossing[0]]["levels"])
+    pre = 1 if "Tr" in crossing else 0
+    cons = []
+    rcc = rng.random() < 0.4
+    r = rng.random()
+    if r < 0.35:
+        d = rng.choice([n for n in ("W", "V") if n in F])
+        cons.append({"type": "Exclude", "factor": d, "level": rng.choice(F[d]["levels"])[0]})
+        rcc = False
+    elif r < 0.5:
+        b = rng.choice(basics)
+        cons.append({"type": "Exclude", "factor": b, "level": rng.choice(F[b]["levels"])[0]})
+        rcc = False
+    if any(F[n]["kind"] == "derived" for n in crossing) and rng.random() < 0.8:
+        rcc = False
+    T = size + pre
+    if rng.random() < 0.45:
+        mt = rng.choice([size + 1, size + 1, size + 2, 2 * size - 1, 2 * size, 2 * size + 1]) + pre
+        mt = max(2, min(mt, 10))
+        cons.append({"type": "MinimumTrials", "trials": mt})
+        T = max(T, mt)
+    if rng.random() < 0.45 or crossing == ["A"]:
+        tgt = ["W"] if crossing == ["A"] and rng.random() < 0.7 else names
+        cons.append(gen_constraint(rng, spec, tgt, T, types=["AtMostKInARow", "AtMostKInARow", "ExactlyK", "Pin",
+                                                             "AtLeastKInARow", "ExactlyKInARow"], boundary=False))
+    design = list(names)
+    if rng.random() < 0.5:
+        rng.shuffle(design)
+    spec["block"] = {"op": "cross", "design": design, "crossings": [crossing], "cons": cons, "rcc": rcc,
+                     "mode": "weight", "align": "equal", "ctor": "CrossBlock"}
+    return spec
+
+
 def gen_spec(rng, cls):
+    if cls == "K12":
+        return gen_combo(rng)
     if cls == "K8":
         return gen_multicross(rng)
     if cls == "K9":
